@@ -7,7 +7,12 @@ import DadiVerif.Generated.Effects
    c20.inputs <cache>               -> ok <usedParams,…> <keyParams,…>      | err nocache
    c20.memo <cache> <t;t;…>         -> ok <t;t;…>    (t = n,n,… ; for every call the tuple whose value is returned)
                                        err nocache | err arity
-   c20.flow <function>              -> ok <params,…> <params the alias-flow analysis says may be modified,… | ->   | err noflow -/
+   c20.flow <function>              -> ok <params,…> <params the alias-flow analysis says may be modified,… | ->   | err noflow
+   c20.maskwrite <method> <p,p,…> <bits>  -> ok <bits>   (the memory block of a mask — one character 0/1 per byte — after the in-place
+                                       writes of the method, for the mask whose logical element k lives at byte p_k of the block)
+                                       err nofn | err pos | err index
+   c20.arrwrite <direct|flat|ravel|flatten> <all|i> <0|1> <p,p,…> <bits>  -> ok <bits>   (one store through the given handle: the
+                                       primitives of the array model against numpy itself) -/
 namespace DadiVerif.Driver.Memo
 open DadiVerif
 
@@ -76,6 +81,72 @@ open Gen.Effects in
 def flowMutated (f : FlowInfo) : List String :=
   (f.params.zipIdx.filter (fun pi => (arun flowFuel f.body [pi.2]).2)).map (·.1)
 
+/-! ### in-place writes into a strided array (the mask of a spectrum)
+
+`Arr` is a numpy array as its methods see it: a memory block `buf` and, for every logical (row-major) element `k`, the position
+`pos[k]` of that element in the block — a C-ordered array has `pos = [o, o+1, …]`, a transposed / Fortran-ordered / reversed / sliced
+one any other injective list.  The generated rows `Gen.Effects.maskWrites` (one per in-place store of a Spectrum method into its own
+mask) are executed by `applyWrite`: `x.flat[i] = v` and `x[...] = v` address logical elements; `h = x.ravel(); h[i] = v` writes
+into `x` only when `x` is C-contiguous (`ravel` copies otherwise and the temporary is dropped); `x.flatten()` always copies. -/
+structure Arr where
+  buf : List Bool
+  pos : List Nat
+deriving Repr
+
+def Arr.size (a : Arr) : Nat := a.pos.length
+/-- the array's content in logical order -/
+def Arr.logical (a : Arr) : List Bool := a.pos.map (fun p => a.buf.getD p false)
+/-- numpy's C-contiguity: logical element `k` lives at `pos[0] + k` -/
+def Arr.contig (a : Arr) : Bool := a.pos == List.range' (a.pos.headD 0) a.pos.length
+def Arr.setLogical (a : Arr) (k : Nat) (v : Bool) : Arr := { a with buf := a.buf.set (a.pos.getD k 0) v }
+def Arr.setAll (a : Arr) (v : Bool) : Arr := { a with buf := a.pos.foldl (fun b p => b.set p v) a.buf }
+
+/-- a Python index into a sequence of length `n` (negative: from the end); `none` = IndexError -/
+def pyIndex (n : Nat) (i : Int) : Option Nat :=
+  if 0 ≤ i then (if i.toNat < n then some i.toNat else none)
+  else (if (-i).toNat ≤ n then some (n - (-i).toNat) else none)
+
+open Gen.Effects in
+/-- one generated in-place store executed on the array (`none`: the real statement raises, or the row is outside the model) -/
+def applyWrite (w : MaskWrite) (a : Arr) : Option Arr :=
+  match w.index, w.handle with
+  | .all, .direct => some (a.setAll w.value)
+  | .all, .flat => some (a.setAll w.value)
+  | .all, .ravel => some (if a.contig then a.setAll w.value else a)
+  | .all, .flatten => some a
+  | .idx _, .direct => none
+  | _, .other => none
+  | .idx i, .flat => (pyIndex a.size i).map (fun k => a.setLogical k w.value)
+  | .idx i, .ravel => (pyIndex a.size i).map (fun k => if a.contig then a.setLogical k w.value else a)
+  | .idx i, .flatten => (pyIndex a.size i).map (fun _ => a)
+
+open Gen.Effects in
+def applyWrites : List MaskWrite → Arr → Option Arr
+  | [], a => some a
+  | w :: ws, a => match applyWrite w a with
+    | some a' => applyWrites ws a'
+    | none => none
+
+open Gen.Effects in
+/-- what the same store does to a plain list holding the logical content (the layout-free specification) -/
+def writeLogical (w : MaskWrite) (l : List Bool) : Option (List Bool) :=
+  match w.index with
+  | .all => some (l.map (fun _ => w.value))
+  | .idx i => (pyIndex l.length i).map (fun k => l.set k w.value)
+
+open Gen.Effects in
+def writesLogical : List MaskWrite → List Bool → Option (List Bool)
+  | [], l => some l
+  | w :: ws, l => match writeLogical w l with
+    | some l' => writesLogical ws l'
+    | none => none
+
+/-- the generated rows of one method writing into the attribute `attr` -/
+def writesOf (fn attr : String) : List Gen.Effects.MaskWrite := Gen.Effects.maskWrites.filter (fun w => w.fn == fn && w.attr == attr)
+
+def parseBits (s : String) : Option (List Bool) := s.toList.mapM (fun c => if c == '0' then some false else if c == '1' then some true else none)
+def showBits (l : List Bool) : String := String.ofList (l.map (fun b => if b then '1' else '0'))
+
 def findFlow (name : String) : Option Gen.Effects.FlowInfo := Gen.Effects.flows.find? (fun f => f.fn == name)
 
 def handle (toks : List String) : Option String :=
@@ -84,6 +155,26 @@ def handle (toks : List String) : Option String :=
       match findFlow name with
       | some f => some ("ok " ++ ",".intercalate f.params ++ " " ++ (if (flowMutated f).isEmpty then "-" else ",".intercalate (flowMutated f)))
       | none => some "err noflow"
+  | ["c20.maskwrite", name, pos, bits] => do
+      let pos ← parseTuple pos
+      let buf ← parseBits bits
+      let ws := writesOf name "mask"
+      if ws.isEmpty then some "err nofn"
+      else if pos.any (fun p => p ≥ buf.length) || pos.isEmpty then some "err pos"
+      else match applyWrites ws { buf := buf, pos := pos } with
+        | some a => some ("ok " ++ showBits a.buf)
+        | none => some "err index"
+  | ["c20.arrwrite", h, ix, v, pos, bits] => do
+      let pos ← parseTuple pos
+      let buf ← parseBits bits
+      let handle ← (match h with
+        | "direct" => some Gen.Effects.Handle.direct | "flat" => some .flat | "ravel" => some .ravel | "flatten" => some .flatten | _ => none)
+      let index ← (if ix == "all" then some Gen.Effects.WIndex.all else ix.toInt?.map Gen.Effects.WIndex.idx)
+      let value ← (if v == "1" then some true else if v == "0" then some false else none)
+      if pos.any (fun p => p ≥ buf.length) || pos.isEmpty then some "err pos"
+      else match applyWrite { fn := "", attr := "", handle := handle, index := index, value := value } { buf := buf, pos := pos } with
+        | some a => some ("ok " ++ showBits a.buf)
+        | none => some "err index"
   | ["c20.inputs", name] =>
       match findCache name with
       | some c => some ("ok " ++ ",".intercalate c.usedParams ++ " " ++ ",".intercalate c.keyParams)
